@@ -58,6 +58,7 @@ def run(ctx, prop):
         args += ["-burstprobe", "100000" if q else "600000"]   # a 1-in-10^4 hand-over order: the long run belongs to C08
     else:
         args += ["-burstprobe", "5000"]
+    args += ["-lonebursts", ("1500" if q else "10000") if prop == "C06" else "300"]   # single-lane bursts: the long run belongs to C06
     p = ctx.run(args, timeout=3000, ok_codes=(0, 66, 2), env={"GORACE": "halt_on_error=0"})
     if p.returncode == 2:
         # the harness process died: a Go run-time panic that escaped (or happened inside) the lane's own goroutines
@@ -109,7 +110,7 @@ def run(ctx, prop):
     per_kind = {}
     chosen = []
     for c in sorted(rows, key=lambda c: len(c["evs"])):
-        if len(c["evs"]) > (260 if q else 500) or c["kind"] in ("quietburst", "marathon", "panicmarathon", "burstprobe"):
+        if len(c["evs"]) > (260 if q else 500) or c["kind"] in ("quietburst", "marathon", "panicmarathon", "burstprobe", "lonebursts"):
             continue
         per_kind.setdefault(c["kind"], 0)
         if per_kind[c["kind"]] < (8 if q else 60):
